@@ -512,6 +512,13 @@ where
         self.radio_kind.set_tx_continuous_wave_mode().await
     }
 
+    /// Verification hook (compiled only with `--cfg lora_rs_verif`): read-only view of the
+    /// driver's bookkeeping `(radio_mode, cold_start, calibrate_image)`.
+    #[cfg(lora_rs_verif)]
+    pub fn verif_state(&self) -> (RadioMode, bool, bool) {
+        (self.radio_mode, self.cold_start, self.calibrate_image)
+    }
+
     async fn prepare_modem(&mut self, frequency_in_hz: u32) -> Result<(), RadioError> {
         self.radio_kind.ensure_ready(self.radio_mode).await?;
         if self.radio_mode != RadioMode::Standby {
